@@ -836,3 +836,31 @@ def ite_of(body, o, local):
             if body.dominates(tt[0], b1) and body.dominates(ff[0], b2) and not body.dominates(tt[0], b2) and not body.dominates(ff[0], b1):
                 return ("ite", subj, v1, v2)
     return None
+
+
+def check_ms_getter(ob, prog, getter, field, key=None):
+    """Unit discipline: a Config accessor reading a `*_ms` field must build its Duration with from_millis only
+    (every Duration constructor in the body, as a call or as a function value)."""
+    b = prog.body(getter)
+    if b is None:
+        raise AnchorLost(f"body {getter} not found")
+    key = key or getter.split("::")[-1]
+    o = Origins(b)
+    ret = o.of_local(0)
+    ob.require(mentions_field(ret, field) and mentions_param(ret, "self"), f"{key}/reads-{field}", f"{getter} returns {show(ret)[:100]} (does not read self.{field})", b.path)
+    ctors = []
+    for c in b.calls():
+        if b.is_cleanup(c.bb):
+            continue
+        if c.fn and c.fn.startswith("core::time::Duration::") and (c.fn.split("::")[-1].startswith("from_") or c.fn.endswith("::new")):
+            ctors.append(c.fn.split("::")[-1])
+        for op in c.args:
+            if op.get("k") == "const" and "fn" in op and strip_generics(op["fn"]).startswith("core::time::Duration::from_"):
+                ctors.append(strip_generics(op["fn"]).split("::")[-1])
+    for bl in b.blocks:
+        for s in bl["s"]:
+            if s["k"] == "assign":
+                for op in rvalue_operands(s["rv"]):
+                    if op.get("k") == "const" and "fn" in op and strip_generics(op["fn"]).startswith("core::time::Duration::from_"):
+                        ctors.append(strip_generics(op["fn"]).split("::")[-1])
+    ob.require(bool(ctors) and all(x == "from_millis" for x in ctors), f"{key}/unit-ms", f"{getter}: field {field} is in milliseconds but Durations are built with {sorted(set(ctors))}", b.path, b.loc())
